@@ -84,6 +84,16 @@ type sysCfg struct {
 	// every worker as updated, which makes the pool discard probe results that were under way; a
 	// longer interval (production: 1 minute against a 10 s probe interval) lets such results through.
 	SyncTicks int `json:",omitempty"`
+	// PollTicks: the scheduler's queue poll interval in ticks (0 = 1).  With a longer interval a cache
+	// entry that a late poll answer left wrong stays wrong for several scheduling passes.
+	PollTicks int `json:",omitempty"`
+}
+
+func (c *sysCfg) pollTicks() int {
+	if c.PollTicks > 1 {
+		return c.PollTicks
+	}
+	return 1
 }
 
 func (c *sysCfg) syncTicks() int {
@@ -232,6 +242,20 @@ func (cl *apiClient) RequestAndDecode(dst interface{}, method, path string, body
 	}
 	err := a.serve(dst, method, path, params)
 	switch {
+	case method == "GET" && path == "arvados/v1/containers":
+		// a poll of the queue whose answer travels slowly: the list was evaluated on arrival, the
+		// dispatcher sees it a tick later (its own lock / unlock / cancel calls may complete meanwhile)
+		if p, ok := params.(arvados.ResourceListParams); ok {
+			kind := "poll-missing"
+			for _, f := range p.Filters {
+				if f.Attr == "locked_by_uuid" {
+					kind = "poll-mine"
+				} else if f.Attr == "state" {
+					kind = "poll-queued"
+				}
+			}
+			s.slow(kind, cl.epoch)
+		}
 	case method == "POST" && strings.HasSuffix(path, "/lock"):
 		s.slow("lock", cl.epoch)
 	case method == "POST" && strings.HasSuffix(path, "/unlock"):
@@ -831,7 +855,7 @@ type hold struct {
 
 // slow-<kind>: the effect happens on arrival and the answer is late; slowreq-<kind>: the request
 // itself is late (held before it takes effect)
-var slowKinds = []string{"detach", "kill", "list", "lock", "unlock", "cancel", "create", "destroy", "req-lock", "req-unlock", "req-cancel", "req-detach"}
+var slowKinds = []string{"detach", "kill", "list", "lock", "unlock", "cancel", "create", "destroy", "req-lock", "req-unlock", "req-cancel", "req-detach", "poll-mine", "poll-queued", "poll-missing"}
 
 // slow holds the calling dispatcher task back if an answer of this kind is armed to be late.
 func (s *sys) slow(kind string, epoch int) {
@@ -950,7 +974,7 @@ func (s *sys) startDispatcher() {
 	}
 	s.queue = container.NewQueue(discardLogger, nil, chooser, &apiClient{s: s, epoch: epoch})
 	ctx := ctxlog.Context(context.Background(), discardLogger)
-	s.sch = New(ctx, &queueObs{Queue: s.queue, s: s}, &poolObs{Pool: s.pool, s: s}, reg, tStaleLock*vTick, vTick)
+	s.sch = New(ctx, &queueObs{Queue: s.queue, s: s}, &poolObs{Pool: s.pool, s: s}, reg, tStaleLock*vTick, time.Duration(s.cfg.pollTicks())*vTick)
 	s.sch.Start()
 }
 
@@ -1320,6 +1344,7 @@ func (s *sys) enabledEvents() []string {
 		"detach": anyLocked || anyQueued, "req-detach": anyLocked || anyQueued, "kill": anyProc, "list": len(fc.vms) > 0, "lock": anyQueued, "req-lock": anyQueued,
 		"unlock": anyLocked, "req-unlock": anyLocked, "cancel": anyRunning || anyLocked, "req-cancel": anyRunning || anyLocked,
 		"create": anyLocked || anyQueued, "destroy": len(fc.vms) > 0,
+		"poll-mine": anyLocked || anyRunning, "poll-queued": anyLocked || anyQueued, "poll-missing": anyLocked || anyRunning,
 	}
 	for _, k := range slowKinds {
 		if cfg.has("slow-"+k) && !s.armSlow[k] && slowGate[k] {
